@@ -141,7 +141,7 @@ def c02_1(ctx):
 
 
 def c02_2(ctx):
-    ctx.rule('C02.2', 'address labels are bound in the first pass, after the address is set, to the line address', 4)
+    ctx.rule('C02.2', 'address labels are bound in the first pass, after the address is set, to the line address', 5)
     fn = ctx.repo.func(ENGINE)
     g = ctx.cfg(fn)
     loop = first_pass_loop(ctx, fn)
@@ -178,12 +178,27 @@ def c02_2(ctx):
     found = False
     for r in returns(gv):
         cl = facts_at(ctx, gv, r, res2)
+        v = r.value
         if frozenset({('isnone', 'self._value', True)}) in cl:
             found = True
-            ctx.check(unparse(r.value) == 'self.address', 'label:value=address', gv.site(r),
+            ctx.check(unparse(v) == 'self.address', 'label:value=address', gv.site(r),
                       'the value of an address label is the address of its line', unparse(r))
+        elif isinstance(v, ast.IfExp) and unparse(v.test) in ('self._value is None', 'self._value is not None'):
+            found = True
+            a_, c_ = (v.body, v.orelse) if unparse(v.test) == 'self._value is None' else (v.orelse, v.body)
+            ctx.check(unparse(a_) == 'self.address' and unparse(c_) == 'self._value', 'label:value=address', gv.site(r),
+                      'address label -> line address, constant -> its value', unparse(r))
+        elif isinstance(v, ast.BoolOp) and isinstance(v.op, ast.Or) and 'self._value' in unparse(v):
+            found = True
+            ctx.refute('label:value=address', gv.site(r), 'a constant has the value of its defining expression, an address label its line address, '
+                       'decided by whether a value was given (`_value is None`)',
+                       f'{unparse(v)} decides by truthiness: a constant whose value is 0 is given the address of its line')
     if not found:
         ctx.err('label:value=address', gv.site(), 'LabelLine.get_value has a branch for `_value is None`', 'shape not recognised')
+    ic = ctx.repo.func(LABEL + '.is_constant')
+    rr = returns(ic)
+    ctx.check(len(rr) == 1 and unparse(rr[0].value) in ('self._value is not None', 'not self._value is None'), 'label:is-constant', ic.site(),
+              'a label line is a constant iff a value was given (also when that value is 0)', '; '.join(unparse(r) for r in rr))
     lab = ctx.repo.cls(LABEL)
     own = [c for c in lab.mro() if 'byte_size' in c.methods][0]
     ctx.check(own.qualname == LO, 'label:zero-size', lab.node.lineno and f'{lab.module.relpath}:{lab.node.lineno}',
@@ -422,6 +437,8 @@ _ALIGN_BAD = {
     'A + (P - A % P) % P + 1': 'off by one',
     'A': 'no alignment performed',
     '(A + P) // P * P': 'an already aligned address is moved a whole page',
+    '(A + P - 1) & ~(P - 1)': 'bit-mask rounding is a multiple of p only when p is a power of two (.align 10 at 6 stays at 6)',
+    '(A + (P - 1)) & -P': 'bit-mask rounding is a multiple of p only when p is a power of two',
     'A // P * P': 'rounds down',
 }
 
@@ -430,7 +447,7 @@ def c02_6(ctx):
     ctx.rule('C02.6', '.align moves the address to the smallest multiple of the page size not below it', 1)
     fn = ctx.repo.func('bespokeasm.assembler.line_object.directive_line.page_align.PageAlignLine.set_start_address')
     a = fn.call_params[0].arg
-    res = resolver(ctx, fn, inline=False)
+    res = resolver(ctx, fn, inline=True)
     sts = self_attr_stores(fn.node, '_address')
     if not sts:
         raise AnalysisError('PageAlignLine.set_start_address no longer stores self._address')
@@ -466,7 +483,13 @@ def c02_6(ctx):
         ctx.refute('align:displacement', fn.site(), 'a general alignment branch exists', 'only identity stores found')
 
 
-RULES = [c02_1, c02_2, c02_3, c02_4, c02_5, c02_6]
+def c02_macro_sizes(ctx):
+    """A macro line reserves what its steps emit (C10.1 re-evaluated as a clause of 'emitted = reserved')."""
+    from rules.c10 import c10_1
+    c10_1(ctx)
+
+
+RULES = [c02_1, c02_2, c02_3, c02_4, c02_5, c02_6, c02_macro_sizes]
 
 _E = 'assembler/engine.py'
 _FD = 'assembler/line_object/directive_line/fill_data.py'
@@ -515,7 +538,23 @@ MUTANTS = [
     V('c02-const-uncompilable', 'assembler/assembly_file.py', '                                if isinstance(lobj, LabelLine) and lobj.is_constant:\n                                    lobj.label_scope.set_label_value',
       '                                if isinstance(lobj, LabelLine) and lobj.is_constant and not lobj.is_muted:\n                                    lobj.label_scope.set_label_value', 'C02.4'),
 ]
+MUTANTS += [
+    V('c02-align-bitmask', 'assembler/line_object/directive_line/page_align.py',
+      'self._address = address + (self._page_size - (address % self._page_size)) % self._page_size',
+      'page_mask = self._page_size - 1\n            self._address = (address + page_mask) & ~page_mask', 'C02.6'),
+    V('c02-zero-constant-truthy', 'assembler/line_object/label_line.py', "        return self._value is not None", "        return bool(self._value)", 'C02.2'),
+    V('c02-value-or-address', 'assembler/line_object/label_line.py', '''        if self._value is None:
+            # this is a Label, return the address for value
+            return self.address
+        else:
+            return self._value''', '''        return self._value or self.address''', 'C02.2'),
+]
 TWINS = [
+    V('c02-t-label-ifexp', 'assembler/line_object/label_line.py', '''        if self._value is None:
+            # this is a Label, return the address for value
+            return self.address
+        else:
+            return self._value''', '''        return self.address if self._value is None else self._value'''),
     V('c02-t-align-neg-mod', 'assembler/line_object/directive_line/page_align.py',
       'self._address = address + (self._page_size - (address % self._page_size)) % self._page_size',
       'self._address = address + (-address % self._page_size)'),
